@@ -1,6 +1,6 @@
 """Structural mutations of a document given as a list of segment strings (shared by C03, C07, C12, C18)."""
 KINDS = ('delete', 'duplicate', 'swap', 'truncate', 'retag', 'orphan_trailer', 'bad_count', 'overlong', 'empty_elements', 'blank_segment',
-         'too_many_components', 'lowercase_id', 'long_percent_value', 'format_braces_value', 'trailing_separator')
+         'too_many_components', 'lowercase_id', 'long_percent_value', 'format_braces_value', 'trailing_separator', 'blank_elements')
 
 
 def mutate(segs, kind, i):
@@ -49,6 +49,10 @@ def mutate(segs, kind, i):
         if len(e) > 1 and e[0] != 'ISA':
             e[-1] = ('100% EQUITY %s %(x)d ' if kind == 'long_percent_value' else '{0} {} {x!r} ') * 8
         s[i] = '*'.join(e)
+    elif kind == 'blank_elements':
+        e = s[i].split('*')
+        if e[0] != 'ISA':
+            s[i] = '*'.join([e[0]] + [''] * (len(e) - 1))
     elif kind == 'trailing_separator':
         s[i] = s[i] + '*'
     else:
